@@ -66,6 +66,8 @@ func runC04(c *pure.Ctx) {
 									p := Pop{Name: "c04", K: k, Downtime: dt, StartMs: st, ConstructEarlyS: early, JCs: []JC{
 										{Name: "a", Exprs: []string{ex.e}, TZ: ex.tz, LastScheduled: ls, LastUpdated: lu, NotBefore: nb},
 										{Name: "fresh", Exprs: []string{ex.e}, TZ: ex.tz},
+										// the same name in another namespace: its own JobConfig, its own catch-up budget
+										{Name: "a", NS: "team-b", Exprs: []string{ex.e}, TZ: ex.tz, LastScheduled: ls, LastUpdated: lu, NotBefore: nb},
 									}}
 									desc := fmt.Sprintf("expr=%q tz=%q lastScheduled=%s lastUpdated=%s notBefore=%s downtime=%d cap=%d startMs=%d constructedEarlier=%ds", ex.e, ex.tz, offs(ls), offs(lu), offs(nb), dt, k, st, early)
 									h := NewHarness(p, true)
@@ -89,6 +91,7 @@ func runC04(c *pure.Ctx) {
 											r.JCs["a"].cursor = t
 										}
 									}
+									r.JCs["team-b/a"].cursor = r.JCs["a"].cursor // persisted identically
 									nontrivial := false
 									var trace []string
 									for _, dt := range ticks {
